@@ -171,6 +171,16 @@ func (w *World) ifaceImpls(it types.Type) []types.Type {
 }
 
 func (x *Exec) callFn(st *State, fn *ssa.Function, bind []Val, args []Val, pos token.Pos, resT types.Type) Val {
+	if x.initMode {
+		// package initialisation: other packages' init and the init#k table builders are not executed;
+		// the variables the latter write are made unknown afterwards
+		if strings.HasPrefix(fn.Name(), "init") || fn.Blocks == nil {
+			if resT == nil {
+				return Val{}
+			}
+			return Val{C: x.freshCells("init."+fn.Name(), resT)}
+		}
+	}
 	// synthetic wrappers (bound methods, thunks) are not used in this code base
 	pkgPath := ""
 	if fn.Pkg != nil {
@@ -902,6 +912,7 @@ func (x *Exec) verifyFunc() (err error) {
 	fi := x.Top
 	fn := fi.Fn
 	st := &State{G: True(), Loc: map[int][]*Term{}, Heap: map[*Sort]*Term{}}
+	x.runInit(st)
 	var args []Val
 	for i, n := range fi.PNames {
 		args = append(args, x.symbolicArg(n, fi.PTypes[i]))
@@ -1220,4 +1231,69 @@ func (x *Exec) callUninterp(st *State, fi *FuncInfo, args []Val, resT types.Type
 		}
 	}
 	return res
+}
+
+// runInit executes the straight-line part of the package initialiser symbolically, so that package-level
+// variables with constant initialisers (sipVerSP, sigHdrs, the string tables) have their real contents.
+// Variables assigned by the init#k functions (the lookup tables) are left unknown here.
+func (x *Exec) runInit(st *State) {
+	init := x.W.SPkg.Func("init")
+	if init == nil || len(init.Blocks) < 2 {
+		return
+	}
+	x.initMode = true
+	x.spec++
+	defer func() {
+		x.spec--
+		x.initMode = false
+	}()
+	fr := &Frame{fn: init, vals: map[ssa.Value]Val{}, allocs: map[*ssa.Alloc]int{}}
+	for _, in := range init.Blocks[1].Instrs {
+		switch in.(type) {
+		case *ssa.Jump, *ssa.If, *ssa.Return:
+			continue
+		}
+		x.instr(fr, st, in)
+	}
+	// globals written by the table builders: unknown content
+	for _, m := range x.W.SPkg.Members {
+		f, ok := m.(*ssa.Function)
+		if !ok || !strings.HasPrefix(f.Name(), "init#") {
+			continue
+		}
+		for _, b := range f.Blocks {
+			for _, in := range b.Instrs {
+				s, ok := in.(*ssa.Store)
+				if !ok {
+					continue
+				}
+				v := s.Addr
+				for {
+					switch a := v.(type) {
+					case *ssa.FieldAddr:
+						v = a.X
+						continue
+					case *ssa.IndexAddr:
+						v = a.X
+						continue
+					}
+					break
+				}
+				if g, ok := v.(*ssa.Global); ok && !x.initHavoc[g] {
+					if x.initHavoc == nil {
+						x.initHavoc = map[*ssa.Global]bool{}
+					}
+					x.initHavoc[g] = true
+					t := g.Type().Underlying().(*types.Pointer).Elem()
+					fc := x.freshCells("G."+g.Name(), t)
+					x.typeInv(st, t, fc)
+					mo, mt := memOffsOf(t), memTagsOf(t)
+					id := x.globalBlk(g)
+					for k, c := range fc {
+						x.storeHeapCell(st, BV(int64(id+mt[k]), 32), BV(int64(mo[k]), 64), c)
+					}
+				}
+			}
+		}
+	}
 }
